@@ -154,7 +154,9 @@ Definition draw_randint (a b : Z) : M Z :=
 Definition draw_gauss (mu sigma : fl) : M fl :=
   let* d := next_draw in
   match d with
-  | DGauss mu' sigma' x => if fl_eqb mu mu' && fl_eqb sigma sigma' then ret x else mismatch "gauss"
+  | DGauss mu' sigma' x =>
+      (* a Gaussian variate is a binary64 value: a script carrying anything else records no Python run *)
+      if fl_eqb mu mu' && fl_eqb sigma sigma' && valid_binary prec emax x then ret x else mismatch "gauss"
   | _ => mismatch "gauss expected"
   end.
 
